@@ -381,6 +381,11 @@ class MultipartUploader:
         'RequestPayer',
     ]
 
+    # These are the extra_args that need to be forwarded onto
+    # the requests completing and aborting the multipart upload.
+    COMPLETE_MULTIPART_ARGS = ['RequestPayer']
+    ABORT_MULTIPART_ARGS = ['RequestPayer']
+
     def __init__(
         self,
         client,
@@ -402,6 +407,13 @@ class MultipartUploader:
                 upload_parts_args[key] = value
         return upload_parts_args
 
+    def _extra_args_for(self, extra_args, allowed):
+        filtered_args = {}
+        for key, value in extra_args.items():
+            if key in allowed:
+                filtered_args[key] = value
+        return filtered_args
+
     def upload_file(self, filename, bucket, key, callback, extra_args):
         response = self._client.create_multipart_upload(
             Bucket=bucket, Key=key, **extra_args
@@ -418,7 +430,10 @@ class MultipartUploader:
                 exc_info=True,
             )
             self._client.abort_multipart_upload(
-                Bucket=bucket, Key=key, UploadId=upload_id
+                Bucket=bucket,
+                Key=key,
+                UploadId=upload_id,
+                **self._extra_args_for(extra_args, self.ABORT_MULTIPART_ARGS),
             )
             raise S3UploadFailedError(
                 "Failed to upload {} to {}: {}".format(
@@ -431,6 +446,9 @@ class MultipartUploader:
                 Key=key,
                 UploadId=upload_id,
                 MultipartUpload={'Parts': parts},
+                **self._extra_args_for(
+                    extra_args, self.COMPLETE_MULTIPART_ARGS
+                ),
             )
         except Exception:
             logger.debug(
@@ -439,7 +457,10 @@ class MultipartUploader:
                 exc_info=True,
             )
             self._client.abort_multipart_upload(
-                Bucket=bucket, Key=key, UploadId=upload_id
+                Bucket=bucket,
+                Key=key,
+                UploadId=upload_id,
+                **self._extra_args_for(extra_args, self.ABORT_MULTIPART_ARGS),
             )
             raise
 
